@@ -8,7 +8,11 @@ use std::io::Write;
 use std::path::{Path, PathBuf};
 use std::time::Instant;
 
-pub const VERIF_ROOT: &str = "/verif";
+/// Root of the verification tree. Always `/verif` for the registered checks; development tools (`tools/try_seed.sh`)
+/// run a snapshot of the committed tree from elsewhere through `VERIF_HOME`, so that /verif can be edited meanwhile.
+pub fn verif_root() -> PathBuf {
+    std::env::var_os("VERIF_HOME").map(PathBuf::from).unwrap_or_else(|| PathBuf::from("/verif"))
+}
 
 #[derive(Clone, Copy, Debug, PartialEq, Eq)]
 pub enum Tier {
@@ -516,7 +520,7 @@ pub struct KnownFinding {
 }
 
 pub fn load_known_findings() -> Vec<KnownFinding> {
-    let path = Path::new(VERIF_ROOT).join("known_findings.json");
+    let path = verif_root().join("known_findings.json");
     let Ok(text) = std::fs::read_to_string(&path) else {
         return Vec::new();
     };
@@ -557,7 +561,7 @@ pub fn finish(def: &PropertyDef, cfg: &Cfg, stats: &Stats, started: Instant) -> 
     let mut new_violations: Vec<(&Violation, PathBuf)> = Vec::new();
     let mut known_hits: BTreeMap<String, (u64, String)> = BTreeMap::new();
     // development sweeps (tools/) redirect their output so that they never touch the committed evidence
-    let out_root = std::env::var_os("VERIF_OUT_ROOT").map(PathBuf::from).unwrap_or_else(|| PathBuf::from(VERIF_ROOT));
+    let out_root = std::env::var_os("VERIF_OUT_ROOT").map(PathBuf::from).unwrap_or_else(verif_root);
     let replay_dir = out_root.join("replays").join(def.id);
     for v in &stats.violations {
         if let Some(k) = match_known(&known, def.id, v) {
